@@ -134,10 +134,13 @@ def _fit_dtype(lm):
     return lm
 
 
-def gen_partition(rng, max_cells=3, dtypes=None):
-    """-> (whole, pieces, tags); dtypes: numeric types of the fields (default: the shared generator's f64/f32/i32/i64)"""
+def gen_partition(rng, max_cells=3, dtypes=None, scale=None):
+    """-> (whole, pieces, tags); dtypes: numeric types of the fields (default: the shared generator's f64/f32/i32/i64);
+    scale: lattice spacing handed to the shared generator (default: its own random choice 1e-6 .. 1e6)"""
     for _ in range(20):
         kw = {"dtypes": tuple(dtypes)} if dtypes else {}
+        if scale is not None:
+            kw["scale"] = scale
         lm, tags = meshgen.gen_mesh(rng, max_cells_per_dir=max_cells, allow_duplicates=False,
                                     allow_orphans=(rng.random() < 0.2), **kw)
         _fit_dtype(lm)
@@ -1176,8 +1179,143 @@ def eval_repeat(ctx, whole, pieces, tmpdir):
                       what=f"repetition: {sorted(out)}")
 
 
+# ------------------------------------------------------------------- shared points that are EQUAL but not bit-identical
+# The pieces of a parallel data set are written by different processes: a coordinate on the interface can be +0.0 in one piece
+# and -0.0 in the other, and one piece can store its points as Float32 where another uses Float64 (exactly representable
+# coordinates).  Numerically equal points are the same point ("points shared between pieces are present once"); the
+# generators above only ever produced bit-identical float64 copies.  Content vs the whole data set (search) and vs the Lean
+# model on the same numbers (the protocol transports coordinates as unit counts: +0 = -0, no float width), both piece orders,
+# merge() on MeshFields objects and .pvtu files whose pieces carry the different zeros / point types.
+
+def _to_fc_pts(lm, pdt):
+    """meshgen.to_fc with the points stored as `pdt` ("f64" | "f32"); signed zeros of the logical mesh are kept"""
+    from fieldcompare.mesh import Mesh, MeshFields
+    pts = np.array(lm["points"], dtype=NP_DT[pdt]).reshape(len(lm["points"]), lm["dim"])
+    conn = [(meshgen.celltype(t), np.array(rows, dtype=np.int64).reshape(len(rows), -1)) for t, rows in lm["cells"]]
+    pd = {f["name"]: meshgen._values_array(f, len(lm["points"])) for f in lm["pf"]}
+    names = []
+    for f in lm["cf"]:
+        if f["name"] not in names:
+            names.append(f["name"])
+    cd = {n: [meshgen._values_array([f for f in lm["cf"] if f["name"] == n and f["ctype"] == t][0], len(rows))
+              for t, rows in lm["cells"]] for n in names}
+    return MeshFields(Mesh(pts, conn), pd, cd)
+
+
+def eqpts_variant(rng, whole, pieces, variant):
+    """-> (whole', pieces', point dtypes per piece) or None if the partition has no point shared between two pieces"""
+    whole, pieces = copy.deepcopy(whole), copy.deepcopy(pieces)
+    count = {}
+    for p in pieces:
+        for k in {point_key(x) for x in p["points"]}:
+            count[k] = count.get(k, 0) + 1
+    shared = [x for p in pieces for x in p["points"] if count[point_key(x)] > 1]
+    if not shared:
+        return None
+    if variant == "signed-zero":
+        s = list(rng.choice(shared))
+        for lm in [whole] + pieces:
+            lm["points"] = [[c - sc for c, sc in zip(x, s)] for x in lm["points"]]      # the chosen shared point becomes the origin
+        flip = rng.randrange(2)
+        for i, p in enumerate(pieces):
+            if i % 2 == flip:
+                p["points"] = [[-0.0 if c == 0.0 else c for c in x] for x in p["points"]]
+            else:
+                p["points"] = [[0.0 if c == 0.0 else c for c in x] for x in p["points"]]
+        whole["points"] = [[0.0 if c == 0.0 else c for c in x] for x in whole["points"]]
+        pdts = ["f64"] * len(pieces)
+    else:
+        n_before = len({point_key(x) for x in whole["points"]})
+        for lm in [whole] + pieces:
+            lm["points"] = [[float(np.float32(c)) for c in x] for x in lm["points"]]
+        if len({point_key(x) for x in whole["points"]}) != n_before:
+            return None                                    # rounding to float32 made two points coincide
+        flip = rng.randrange(2)
+        pdts = ["f32" if i % 2 == flip else "f64" for i in range(len(pieces))]
+    return whole, pieces, pdts
+
+
+def eval_eqpts(ctx, items, tmpdir):
+    """items: (whole, pieces, point dtypes, tags, via)"""
+    from fieldcompare.io import write, read_field_data
+    from fieldcompare.mesh import merge
+    prepared = []
+    for whole, pieces, pdts, tags, via in items:
+        case = {"kind": "merge-eqpts", "via": via, "whole": whole, "pieces": pieces, "pdts": pdts}
+        try:
+            with warnings.catch_warnings():
+                warnings.simplefilter("ignore")
+                objs = [_to_fc_pts(p, d) for p, d in zip(pieces, pdts)]
+                if via == "mem":
+                    res = merge(*objs)
+                    ref_c = canon(whole)
+                else:
+                    files = [write(o, os.path.join(tmpdir, f"e-{i}")) for i, o in enumerate(objs)]
+                    wfile = write(meshgen.to_fc(whole), os.path.join(tmpdir, "e-whole"))
+                    pfile = write_pvtu(tmpdir, "e", files, whole)
+                    res = read_field_data(pfile)
+                    ref_c = canon(meshgen.from_fc(read_field_data(wfile)))
+                    for f in files + [wfile, pfile]:
+                        os.remove(f)
+                impl_c = canon(meshgen.from_fc(res))
+                npts = len(np.asarray(res.domain.points))
+            err = None
+        except Exception as e:  # noqa: BLE001
+            impl_c = ref_c = npts = None
+            err = f"{type(e).__name__}: {e}"
+        prepared.append((case, tags, impl_c, ref_c, npts, err))
+    replies = ctx.lean([enc_c06u(c["whole"], c["pieces"]) for c, *_ in prepared]) if ctx.driver_ok else [None] * len(prepared)
+    for (case, tags, impl_c, ref_c, npts, err), rep in zip(prepared, replies):
+        f3 = is_f3(case["pieces"])
+        ctx.case(("eqpts", case["via"], repr(case["pdts"]), repr(case["whole"]["points"]), repr([p["points"] for p in case["pieces"]]),
+                  repr([p["cells"] for p in case["pieces"]])), nontrivial=len(case["pieces"]) > 1,
+                 tags=list(tags) + ["p6g1i", "p6-equal-not-identical-points", "via-" + case["via"], "f3" if f3 else "no-f3"])
+        cls = "F3" if f3 else None
+        if err is not None:
+            ctx.violation(case, "exception " + err, "content of the whole data set", cls=cls,
+                          what="merging pieces whose shared points are equal but not bit-identical raised")
+            continue
+        if impl_c != ref_c:
+            d = diff_summary(impl_c, ref_c)
+            d["merged_point_count"], d["whole_point_count"] = npts, len(case["whole"]["points"])
+            ctx.violation(case, d, "content of the whole data set (shared points present once)", cls=cls,
+                          what=f"pieces whose shared points are equal but not bit-identical ({'/'.join(tags[-2:])}, {case['via']}) "
+                               "do not merge to the whole data set")
+        elif not f3 and npts != len(case["whole"]["points"]):
+            ctx.violation(case, {"merged_point_count": npts}, {"whole_point_count": len(case["whole"]["points"])}, cls=None,
+                          what="merged data set has the content of the whole but a different number of points")
+        if rep is not None and case["via"] == "mem" and rep.get("hyp") == "1":
+            model_c = canon_units(dec_fields(rep["model"]))
+            if model_c != impl_c:
+                ctx.mismatch(case, diff_summary(impl_c, model_c), "Fc.mergeAll", what="merge (equal, not identical points): impl vs model content")
+
+
+def check_eqpts(ctx, tmpdir):
+    rng = ctx.rng
+    items = []
+    n = 0
+    tries = 0
+    while n < ctx.scale(40, 1500) and tries < 20000:
+        tries += 1
+        whole, pieces, tags = gen_partition(rng, max_cells=rng.choice([2, 3, 3]), scale=rng.choice([1.0, 0.5, 2.5]))
+        if len(pieces) < 2:
+            continue
+        variant = ("signed-zero", "f32-f64")[n % 2]
+        v = eqpts_variant(rng, whole, pieces, variant)
+        if v is None:
+            continue
+        w2, p2, pdts = v
+        via = "pvtu" if n % 4 >= 2 else "mem"
+        items.append((w2, p2, pdts, tags + ["p6-eqpts-" + variant, "order-listed"], via))
+        items.append((w2, list(reversed(p2)), list(reversed(pdts)), tags + ["p6-eqpts-" + variant, "order-reversed"], via))
+        n += 1
+    for i in range(0, len(items), 200):
+        eval_eqpts(ctx, items[i:i + 200], tmpdir)
+
+
 def check_p6g1i(ctx, tmpdir):
     rng = ctx.rng
+    check_eqpts(ctx, tmpdir)
     # ---- numeric types, unstructured (model consulted: the protocol carries every dtype)
     batch = []
     for i in range(ctx.scale(70, 1500)):
@@ -1305,6 +1443,8 @@ def _rerun_case(ctx, case):
             eval_structured_merger(sub, [case["decomp"]], dts=(case["dt"],) if case.get("dt") else ("i32", "i64", "f64", "f32", "i32"))
         elif case["kind"] == "pvtu-paths":
             eval_paths(sub, case["whole"], case["pieces"], tmpdir, case["layout"], cwd_shadow=bool(case.get("cwd_shadow")))
+        elif case["kind"] == "merge-eqpts":
+            eval_eqpts(sub, [(case["whole"], case["pieces"], case["pdts"], ["replay", "replay"], case["via"])], tmpdir)
         elif case["kind"] == "merge-repeat":
             eval_repeat(sub, case["whole"], case["pieces"], tmpdir)
     finally:
